@@ -7,7 +7,8 @@ stream, one more Lean module of property theorems. Not a registry entry by itsel
 Wiring (same as snippet_C01bcast / snippet_C01wire in props_C01.py): append STREAM to ENTRY["streams"], add EXTRA_LEAN to
 ENTRY["lean_props_extra"], add MONITOR_SIGS to ENTRY["monitor_sigs"], extend trusted_base / assumptions / level_text with
 the lines below. lean_exe `drv-retry` is already in lean/lakefile.toml; hook app/retry/verif_export_retry.go is committed
-in /repo (a730a2f). No defect found: KNOWN_FINDINGS is empty; two facts about the code as it is are stated as witnesses
+in /repo (a730a2f), hook core/verif_export_retrywire.go too (324de8d: VerifRetryEdges / VerifWrapEdges - wire funcs over
+caller-supplied inner functions with the wire options applied, the five wrapped functions returned). No defect found: KNOWN_FINDINGS is empty; two facts about the code as it is are stated as witnesses
 (attempt 0 runs with an expired context; Shutdown(ctx) returns with running calls when ctx is done).
 
 NOTE (lead): every `shutdown` op with calls that are active waits for one tick of Shutdown's real 100 ms ticker (the only
@@ -16,7 +17,7 @@ go/ast pin of core/retry.go + core/interfaces.go in its `cfg` op.
 """
 
 STREAM = {"name": "retry", "drive": "drive-retry", "model": "drv-retry",
-          "reset_ops": ["new"],
+          "reset_ops": ["new", "wnew"],
           "n_quick": 2500, "seeds_quick": 2, "n_thorough": 12000, "seeds_thorough": 6,
           "search_seeds": 2}
 
@@ -47,6 +48,8 @@ THEOREMS = [
     "CharonV.Retry.retry_edge_refines_cluster_env",
     "CharonV.Retry.parsigex_retry_same_root",
     "CharonV.Retry.success_delivers_all",
+    "CharonV.Retry.wrapped_edge_delivers_only_captured_pairs",
+    "CharonV.Retry.wrapped_call_attempts_same_pair",
     "CharonV.Retry.wrapped_edges_table",
 ]
 
@@ -77,6 +80,10 @@ LEVEL_TEXT = (
     "delivery list and a failed attempt is repeated whole - the cluster operations a retried call causes are drawn from that "
     "list only, any number of times or never, hence an op sequence of Model/Cluster.lean, and no_two_roots holds verbatim for "
     "every cluster history containing them (retry_edge_refines_cluster_env, parsigex_retry_same_root, success_delivers_all). "
+    "The wrapping itself is executed as well: in wire episodes the real core.WithAsyncRetry is applied to five scripted inner "
+    "functions and calls of one edge for different duties overlap (one waits in backoff while another succeeds, then its timer "
+    "fires); every invocation of an inner function carries the (duty, set) pair captured by the call whose attempt it is "
+    "(wrapped_edge_delivers_only_captured_pairs, wrapped_call_attempts_same_pair; monitor retry:edge_delivered_foreign_pair). "
     "Tied by stream retry: the real retry.NewForT retryer in lock-step (scripted wrapped functions, real timers fired by the "
     "driver, deadline contexts cancelled by the driver, real Shutdown), events and the retryer's own active map compared after "
     "every op."
@@ -107,7 +114,19 @@ TRUSTED_BASE = [
     "w.F = func(...) error { go retryer.DoAsync(ctx, duty, \"topic\", \"name\", func(ctx) error { return clone.F(...) }); return nil }; "
     "anything else prints wire-unrecognised) and core/interfaces.go (wireFuncs fields of type func(...) error that Wire passes to a "
     "subscribe / register call, minus the wrapped ones = the inline inputs); compared with Model/Retry.lean's wrappedEdges / syncEdges",
-    "monitors (independent of the model): retry:concurrent_attempts_same_call (per-call counter inside the wrapped function), "
+    "wire episodes (ops wnew / wcall <id> <edge> <duty> / wret / wfire / wexpire, harness/cmd/drive-retry/wire.go): hook "
+    "core.VerifWrapEdges builds the wire funcs over five scripted inner functions and applies the REAL core.WithAsyncRetry(retryer) "
+    "(retryer = retry.NewForT[core.Duty]); wcall invokes the wrapped edge function with duty slot <duty> and a set whose only key is "
+    "s<id> (Consensus.Participate has no set: its slot also carries the id); the inner function of an edge looks the set up, reports "
+    "the (duty, set) pair it was handed with every attempt start (compared with the model's captured pair) and blocks for the "
+    "scripted outcome; the wrapper owns the DoAsync goroutine, so `DoAsync returned` is observed as one entry less in the active "
+    "map; half of the wire episodes start with the overlap pattern (D1 fails temporarily and waits, D2 on the same edge succeeds at "
+    "once, D1's timer fires), the rest are random overlapping calls on few edges and duties",
+    "monitors (independent of the model): retry:edge_delivered_foreign_pair (an inner function was invoked with a (duty, set) pair "
+    "that no call of that edge captured: the set of one call under the duty of another, a set of another edge, or a set nobody "
+    "passed in; late invocations are collected until the episode ends), retry:wrapped_edge_returned_error, retry:call_lost also for "
+    "wrapped calls (a call that is `taken over` returns without a new attempt when its timer fires), "
+    "retry:concurrent_attempts_same_call (per-call counter inside the wrapped function), "
     "attempt_after_success, permanent_error_retried (the driver's own reading of the rule on the error it built), "
     "attempt_after_deadline (attempt >= 1 entered after the driver cancelled the deadline), attempt_after_shutdown, "
     "start_after_shutdown (probe calls still admitted), call_lost (retryable error / fired timer before the deadline and no "
